@@ -16,7 +16,9 @@ META = {
         "is exactly [1, 30] (constants evaluated, any spelling of the comparisons). R4: the look-ahead walks the date-sorted "
         "slice forwards from the sale's index and the canonicalising sort is stable and ascending on date. R5 (PROV): legs are "
         "labelled Some(sale date) / Some(candidate date) / None. R6: the 30-day matched quantity depends on the prior-claim map "
-        "read at the candidate's index and on the same-day reservation for (candidate date, ticker). Does not decide quantities, "
+        "read at the candidate's index and on the same-day reservation for (candidate date, ticker). R7: intervening SPLIT/UNSPLIT "
+        "compound into the look-ahead's cumulative ratio (×= / ÷= by the variant's own ratio) and quantities are rescaled with it "
+        "(shared with C10-R2/R3). Does not decide quantities, "
         "costs or the reservation state machine against the statute."),
     "trusted_base": ["chrono: (a − b).num_days() is the signed day difference", "rustc MIR + resolution", "Vec::sort_by is stable"],
 }
@@ -283,3 +285,12 @@ def run(ctx, rep):
     window(R, rep)
     labels(R, rep)
     reservations(R, rep)
+    # "rescaled across intervening splits": the look-ahead's ratio accumulator and the unit discipline (shared with C10-R2/R3)
+    import rules.c10 as c10
+    from core import Report
+    r2 = Report("tmp")
+    c10.ratio_ops(R, r2, None)
+    c10.unit_discipline(R, r2)
+    for o in r2.obligations:
+        if o["instance"].startswith("30-day"):
+            rep.ob("R7", o["instance"], o["ok"], o["detail"], o["site"], key="R7:" + o["instance"])
